@@ -230,6 +230,7 @@ func TestC16Accept(t *testing.T) {
 		kind := kind
 		t.Run(kind, func(t *testing.T) {
 			rapid.Check(t, func(t *rapid.T) {
+				decorrelate(t, kind)
 				c := genPoolCfg(t, kind)
 				msg, bad, acc, skipped := checkAccept(c)
 				if bad {
